@@ -249,6 +249,27 @@ def str_definitely_distinct(a, b):
     return False
 
 
+def str_has_own_prefix(key, owner):
+    """key is `owner` itself or `owner` followed by a literal starting with '_' (for every instantiation)"""
+    if key == owner:
+        return True
+    pk, po = list(str_parts(key)), list(str_parts(owner))
+    # the owner's parts must be a prefix of the key's parts (a trailing literal of the owner may continue)
+    if len(pk) < len(po):
+        return False
+    for i, part in enumerate(po):
+        if i == len(po) - 1 and isinstance(part, str):
+            if not (isinstance(pk[i], str) and pk[i].startswith(part)):
+                return False
+            rest = pk[i][len(part):]
+            tail = [rest] + pk[i + 1:] if rest else pk[i + 1:]
+            return bool(tail) and isinstance(tail[0], str) and tail[0].startswith("_")
+        if pk[i] != part:
+            return False
+    tail = pk[len(po):]
+    return bool(tail) and isinstance(tail[0], str) and tail[0].startswith("_")
+
+
 class Ref:
     __slots__ = ("oid",)
 
